@@ -92,3 +92,21 @@ C06_KEYS = ['CheckMixin.is_class_enum', 'CheckMixin.is_global_enum', 'CheckMixin
             'MatlabWrapper.wrap_collector_function_shared_return', 'MatlabWrapper.wrap_collector_function_return_types',
             'MatlabWrapper._collector_return', 'MatlabWrapper.wrap_collector_function_return',
             'FormatMixin._format_return_type', 'MatlabWrapper._wrap_args']
+
+# ---- C10: preamble of the MEX source (collectors, clean-up, RTTI registry)
+contract('MatlabWrapper.get_class_name', params={'cls': 'ref:InstantiatedClass'}, returns='tuple[str,str]', modifies=['alloc'],
+         result_is='(old(ml_pre_name(cls)), old(ml_pre_cpp(cls)))')
+contract('CheckMixin._has_serialization', params={'self': 'ref:MatlabWrapper', 'cls': 'ref:InstantiatedClass'}, returns='bool',
+         result_is="exists(0, len(cls.methods), lambda j: cls.methods[j].name == 'serializable' or cls.methods[j].name == 'serialize')",
+         loops={0: {'inv': ["not exists(0, _i, lambda j: cls.methods[j].name == 'serializable' or cls.methods[j].name == 'serialize')"]}})
+contract('MatlabWrapper.generate_preamble', returns='tuple[str,str,str,str,str]', modifies=['alloc'],
+         ensures=['result[2] == old(ml_collectors(self, self.classes, len(self.classes)))',
+                  'result[3] == old(WrapperTemplate.delete_all_objects.format(delete_objs=ml_deletes(self, self.classes, len(self.classes))))',
+                  'result[4] == old(WrapperTemplate.rtti_register.format(module_name=self.module_name, '
+                  'rtti_classes=ml_rtti(self, self.classes, len(self.classes))))'],
+         loops={0: {'inv': ['typedef_collectors == old(ml_collectors(self, self.classes, _i))',
+                            'delete_objs == old(ml_deletes(self, self.classes, _i))',
+                            'rtti_classes == old(ml_rtti(self, self.classes, _i))'],
+                    'types': {'typedef_instances': 'list[str]', 'boost_class_export_guid': 'str'}},
+                1: {'inv': []}})
+C10_KEYS = ['MatlabWrapper.get_class_name', 'CheckMixin._has_serialization', 'MatlabWrapper.generate_preamble']
